@@ -18,7 +18,7 @@ struct LoopWatch
 inline LoopWatch & loopwatch() {static LoopWatch w; return w;}
 }  // namespace vh
 
-extern "C" int romea_verif_loop_iter(const char * site, unsigned long it)
+extern "C" int romea_verif_loop_iter_impl(const char * site, unsigned long it)
 {
   auto & w = vh::loopwatch();
   ++w.calls;
